@@ -132,6 +132,7 @@ func runC04(c *Collector, r *Rng, thorough bool) {
 	}
 	c04Refill(c)
 	c04Reuse(c)
+	c04TwoSpellings(c)
 	// decoded messages: the alg consulted is the one in the protected bytes
 	n := 150
 	if thorough {
@@ -266,6 +267,43 @@ func c04Reuse(c *Collector) {
 							}
 						}
 					}
+				}
+			}
+		}
+	}
+}
+
+// c04TwoSpellings: the alg label present twice under two Go integer kinds (neither of them int64) with different
+// values: one COSE label twice - nothing is signed, whichever entry Go's map iteration yields first.
+func c04TwoSpellings(c *Collector) {
+	spellings := []func(int64) any{func(n int64) any { return int(n) }, func(n int64) any { return int8(n) }, func(n int64) any { return int16(n) },
+		func(n int64) any { return int32(n) }, func(n int64) any { return uint8(n) }, func(n int64) any { return uint16(n) }, func(n int64) any { return uint(n) }, func(n int64) any { return uint64(n) }}
+	for i, s1 := range spellings {
+		for j, s2 := range spellings {
+			if i >= j {
+				continue
+			}
+			for _, structure := range []string{"COSE_Sign1", "COSE_Signature", "COSE_Countersignature"} {
+				signedUnder := map[string]int{}
+				for round := 0; round < 16; round++ {
+					hp := cose.ProtectedHeader{s1(1): cose.AlgorithmES256, s2(1): cose.AlgorithmPS256}
+					sg := &spySigner{alg: cose.AlgorithmES256, kind: SOk, sig: []byte{1, 2}}
+					var err error
+					switch structure {
+					case "COSE_Sign1":
+						err = (&cose.Sign1Message{Headers: cose.Headers{Protected: hp}, Payload: []byte("p")}).Sign(nil, nil, sg)
+					case "COSE_Signature":
+						err = (&cose.Signature{Headers: cose.Headers{Protected: hp}}).Sign(nil, sg, []byte{0x40}, []byte("p"), nil)
+					default:
+						err = (&cose.Countersignature{Headers: cose.Headers{Protected: hp}}).Sign(nil, sg, &cose.Sign1Message{Headers: cose.Headers{Protected: cose.ProtectedHeader{}}, Payload: []byte("p"), Signature: []byte{1}}, nil)
+					}
+					if err == nil || len(sg.calls) > 0 {
+						signedUnder[fmt.Sprint(err)]++
+					}
+				}
+				c.Eval("alg-label-spelled-twice/"+structure, fmt.Sprint(i, j), true)
+				if len(signedUnder) > 0 {
+					c.Fail("C04/duplicate-alg-label-signed", fmt.Sprintf("%s with label 1 present as %T (ES256) and as %T (PS256): an ES256 signer was used in %v of 16 attempts", structure, s1(1), s2(1), signedUnder), map[string]any{"structure": structure, "spellings": fmt.Sprintf("%T %T", s1(1), s2(1))})
 				}
 			}
 		}
